@@ -6,11 +6,28 @@ import (
 	"github.com/free5gc/ike/security"
 )
 
+// vFrontSkipped constrains an arbitrary datagram of n octets to the shape: header naming an unsupported
+// payload type | that payload (l1 octets, critical flag clear, next = Encrypted) | an Encrypted payload
+// spanning the rest.  Returns the offset of the Encrypted payload (-1: no room).
+func vFrontSkipped(b []byte, n, l1 int) int {
+	if l1 < 4 || n < 28+l1+4 {
+		return -1
+	}
+	t := b[16]
+	vr.Assume(t >= 1 && (t <= 32 || t >= 49))
+	vr.Assume(b[28] == uint8(message.TypeSK) && b[29]&0x80 == 0)
+	vr.Assume(int(b[30])<<8|int(b[31]) == l1)
+	o := 28 + l1
+	vr.Assume(int(b[o+2])<<8|int(b[o+3]) == n-o)
+	return o
+}
+
 // HDecodeDecryptArbitrary (C04): DecodeDecrypt on an arbitrary buffer.
 // Params: suite, receiver role, keyed (0/1), hdrMode (0 nil / 1 parsed from the same bytes), length,
 // family (0 = arbitrary chain, 1 = the header announces an Encrypted payload that spans the whole
 // datagram, the only shape a sender of protected messages produces; other first payloads are the
-// business of the plain Decode harnesses).
+// business of the plain Decode harnesses; 2 = an unsupported non-critical payload of Param(6) octets in
+// front of an Encrypted payload that spans the rest).
 func HDecodeDecryptArbitrary() {
 	suite, role, keyed, hdrMode, n, family := vr.Param(0), vr.Param(1), vr.Param(2), vr.Param(3), vr.Param(4), vr.Param(5)
 	var k *security.IKESAKey
@@ -20,6 +37,7 @@ func HDecodeDecryptArbitrary() {
 		k = VNewKey(km)
 	}
 	b := vr.Input(n)
+	skOff := 28
 	if family == 1 {
 		if n < 32 {
 			return
@@ -27,14 +45,20 @@ func HDecodeDecryptArbitrary() {
 		vr.Assume(int(b[30])<<8|int(b[31]) == n-28)
 		vr.Assume(b[16] == uint8(message.TypeSK))
 	}
+	if family == 2 {
+		skOff = vFrontSkipped(b, n, vr.Param(6))
+		if skOff < 0 {
+			return
+		}
+	}
 	if vr.Native() && keyed == 1 {
 		// replay: the counterexample fixes what the uninterpreted MAC and block decryption return; build the
 		// datagram that really carries a valid checksum and really decrypts to the model's plaintext
 		icv := VIntegOutLen[suite%3]
-		if p := vr.ModelPlaintext(0); p != nil && n >= 48+16+icv && len(p) == n-48-icv {
+		if p := vr.ModelPlaintext(0); p != nil && n >= skOff+20+16+icv && len(p) == n-skOff-20-icv {
 			ke, ka := vSenderKeys(km, 1-role)
-			f := append([]byte{}, b[:48]...)
-			f = append(f, vSpecCBCEncrypt(ke, b[32:48], p)...)
+			f := append([]byte{}, b[:skOff+20]...)
+			f = append(f, vSpecCBCEncrypt(ke, b[skOff+4:skOff+20], p)...)
 			f = append(f, VSpecICV(suite, ka, f)...)
 			b = f
 		}
